@@ -36,6 +36,7 @@ func main() { hx.Main(extract, run) }
 type refAcct struct {
 	name, host string
 	g          map[string]bool
+	isRole     bool
 }
 
 type refState struct {
@@ -66,13 +67,13 @@ func (r *refState) apply(s aclx.Stmt, cur string) {
 	case "cu":
 		for _, u := range s.Users {
 			if r.find(u.Name, u.Host) == nil {
-				r.accts = append(r.accts, &refAcct{u.Name, u.Host, map[string]bool{}})
+				r.accts = append(r.accts, &refAcct{u.Name, u.Host, map[string]bool{}, false})
 			}
 		}
 	case "cr":
 		for _, u := range s.Roles {
 			if r.find(u.Name, u.Host) == nil {
-				r.accts = append(r.accts, &refAcct{u.Name, u.Host, map[string]bool{}})
+				r.accts = append(r.accts, &refAcct{u.Name, u.Host, map[string]bool{}, true})
 			}
 		}
 	case "du", "dr":
@@ -220,6 +221,9 @@ var probes = []probe{
 func (p probe) allowed(eff map[string]bool, db, tbl string) bool {
 	has := func(k string) bool { return eff[k] }
 	ps := fmt.Sprint(p.priv)
+	if has("G:15") { // the engine's documented rule: a global SUPER holder may do everything
+		return true
+	}
 	switch p.level {
 	case "table":
 		return has("G:"+ps) || has("D:"+db+":"+ps) || has("T:"+db+":"+tbl+":"+ps)
@@ -256,13 +260,38 @@ var tblLevel = []int{1, 3, 9, 10, 11, 16, 17, 18, 21, 25, 27, 30, 31}
 var dynNames = []string{"replication_slave_admin", "clone_admin"}
 
 type gen struct {
-	r *hx.Rand
+	r   *hx.Rand
+	ref *refState
+}
+
+func (g *gen) existing(roles bool) (aclx.Acct, bool) {
+	var c []aclx.Acct
+	for _, a := range g.ref.accts {
+		if a.isRole == roles {
+			c = append(c, aclx.Acct{Name: a.name, Host: a.host})
+		}
+	}
+	if len(c) == 0 {
+		return aclx.Acct{}, false
+	}
+	return hx.Pick(g.r, c), true
 }
 
 func (g *gen) acct() aclx.Acct {
+	if a, ok := g.existing(false); ok && g.r.Chance(5, 6) {
+		return a
+	}
 	return aclx.Acct{Name: hx.Pick(g.r, userNames), Host: hx.Pick(g.r, userHosts)}
 }
-func (g *gen) role() aclx.Acct { return aclx.Acct{Name: hx.Pick(g.r, roleNames), Host: "%"} }
+func (g *gen) newAcct() aclx.Acct {
+	return aclx.Acct{Name: hx.Pick(g.r, userNames), Host: hx.Pick(g.r, userHosts)}
+}
+func (g *gen) role() aclx.Acct {
+	if a, ok := g.existing(true); ok && g.r.Chance(5, 6) {
+		return a
+	}
+	return aclx.Acct{Name: hx.Pick(g.r, roleNames), Host: "%"}
+}
 
 // grantee is an account or a role (privileges are granted to both).
 func (g *gen) grantee() aclx.Acct {
@@ -270,6 +299,23 @@ func (g *gen) grantee() aclx.Acct {
 		return g.role()
 	}
 	return g.acct()
+}
+
+// session picks (user, address): mostly one that some existing account matches.
+func (g *gen) session() (string, string) {
+	if a, ok := g.existing(false); ok && g.r.Chance(7, 8) {
+		switch a.Host {
+		case "localhost":
+			return a.Name, hx.Pick(g.r, []string{"localhost", "localhost", "127.0.0.1", "::1"})
+		case "%":
+			return a.Name, hx.Pick(g.r, sessAddrs)
+		case "10.0.%":
+			return a.Name, "10.0.0.5"
+		case "h%":
+			return a.Name, "hx1"
+		}
+	}
+	return hx.Pick(g.r, userNames), hx.Pick(g.r, sessAddrs)
 }
 
 func (g *gen) privs(level string, wide bool) []aclx.PPriv {
@@ -301,7 +347,7 @@ func (g *gen) privs(level string, wide bool) []aclx.PPriv {
 		}
 		// weight the privileges the probes look at
 		if g.r.Chance(1, 2) {
-			cand := []int{25, 18, 31, 10, 1, 17, 11, 3, 14}
+			cand := []int{25, 18, 31, 10, 1, 17, 11, 3, 14, 20, 25, 18}
 			p := hx.Pick(g.r, cand)
 			ok := false
 			for _, q := range pool {
@@ -353,28 +399,28 @@ func (g *gen) grantOrRevoke(kind string, wide bool) aclx.Stmt {
 }
 
 func (g *gen) admin(wide bool) aclx.Stmt {
-	switch g.r.Intn(20) {
-	case 0, 1, 2:
-		s := aclx.Stmt{Kind: "cu", Flag: g.r.Chance(1, 4), Users: []aclx.Acct{g.acct()}}
+	switch x := g.r.Intn(100); {
+	case x < 7:
+		s := aclx.Stmt{Kind: "cu", Flag: g.r.Chance(1, 4), Users: []aclx.Acct{g.newAcct()}}
 		if g.r.Chance(1, 5) {
-			s.Users = append(s.Users, g.acct())
+			s.Users = append(s.Users, g.newAcct())
 		}
 		return s
-	case 3:
-		return aclx.Stmt{Kind: "cr", Flag: g.r.Chance(1, 4), Roles: []aclx.Acct{g.role()}}
-	case 4:
+	case x < 10:
+		return aclx.Stmt{Kind: "cr", Flag: g.r.Chance(1, 4), Roles: []aclx.Acct{{Name: hx.Pick(g.r, roleNames), Host: "%"}}}
+	case x < 14:
 		return aclx.Stmt{Kind: "du", Flag: g.r.Chance(1, 3), Users: []aclx.Acct{g.acct()}}
-	case 5:
+	case x < 17:
 		return aclx.Stmt{Kind: "dr", Flag: g.r.Chance(1, 3), Roles: []aclx.Acct{g.role()}}
-	case 6, 7:
+	case x < 29:
 		s := aclx.Stmt{Kind: "gr", Flag: g.r.Chance(1, 4), Roles: []aclx.Acct{g.role()}, Users: []aclx.Acct{g.grantee()}}
 		if g.r.Chance(1, 5) {
 			s.Roles = append(s.Roles, g.role())
 		}
 		return s
-	case 8:
+	case x < 33:
 		return aclx.Stmt{Kind: "rr", Roles: []aclx.Acct{g.role()}, Users: []aclx.Acct{g.grantee()}}
-	case 9, 10, 11, 12:
+	case x < 52:
 		return g.grantOrRevoke("revoke", wide)
 	default:
 		return g.grantOrRevoke("grant", wide)
@@ -517,8 +563,8 @@ func (h *history) sqlStep(user, addr, cur string, stmt aclx.Stmt) string {
 func (h *history) adminStep(g *gen, wide bool) {
 	stmt := g.admin(wide)
 	user, addr := "root", "localhost"
-	if g.r.Chance(1, 7) { // an ordinary account tries it: exercises the CheckAuth methods
-		user, addr = hx.Pick(g.r, userNames), hx.Pick(g.r, sessAddrs)
+	if g.r.Chance(1, 6) { // an ordinary account tries it: exercises the CheckAuth methods
+		user, addr = g.session()
 	}
 	cur := "d"
 	if wide && g.r.Chance(1, 10) {
@@ -537,7 +583,7 @@ func (h *history) adminStep(g *gen, wide bool) {
 
 func (h *history) probeStep(g *gen) {
 	p := hx.Pick(g.r, probes)
-	user, addr := hx.Pick(g.r, userNames), hx.Pick(g.r, sessAddrs)
+	user, addr := g.session()
 	db, tbl := hx.Pick(g.r, []string{"d", "d", "e"}), "t"
 	if db == "d" && g.r.Chance(1, 3) {
 		tbl = "s"
@@ -573,7 +619,7 @@ func (h *history) probeStep(g *gen) {
 	}
 	// oracle (2): only for sessions that name an account exactly
 	host := addr
-	if host == "127.0.0.1" {
+	if host == "127.0.0.1" || host == "::1" {
 		host = "localhost"
 	}
 	if a := h.ref.find(user, host); a != nil && !h.ref.uncertain && obs != "noaccount" {
@@ -593,7 +639,7 @@ func (h *history) probeStep(g *gen) {
 
 func (h *history) syntheticStep(g *gen) {
 	auth := g.synthetic()
-	user, addr := hx.Pick(g.r, userNames), hx.Pick(g.r, sessAddrs)
+	user, addr := g.session()
 	if g.r.Chance(1, 12) {
 		user = "root"
 		addr = "localhost"
@@ -726,15 +772,15 @@ func run(a hx.RunArgs) error {
 	}
 	r := hx.NewRand(a.Seed)
 	for i := 0; i < nHist; i++ {
-		g := &gen{r: r.Fork()}
 		h := newHistory(out)
+		g := &gen{r: r.Fork(), ref: h.ref}
 		wide := g.r.Chance(1, 2)
 		n := 10 + g.r.Intn(maxSteps-9)
 		// a history starts with a few accounts so that grants have someone to land on
-		for k := 0; k < 3; k++ {
-			s := aclx.Stmt{Kind: "cu", Users: []aclx.Acct{g.acct()}}
-			if k == 2 {
-				s = aclx.Stmt{Kind: "cr", Roles: []aclx.Acct{g.role()}}
+		for k := 0; k < 4; k++ {
+			s := aclx.Stmt{Kind: "cu", Users: []aclx.Acct{g.newAcct()}}
+			if k >= 2 {
+				s = aclx.Stmt{Kind: "cr", Roles: []aclx.Acct{{Name: roleNames[k-2], Host: "%"}}}
 			}
 			if h.sqlStep("root", "localhost", "d", s) == "ok" {
 				h.ref.apply(s, "d")
@@ -742,9 +788,9 @@ func run(a hx.RunArgs) error {
 		}
 		for k := 0; k < n; k++ {
 			switch x := g.r.Intn(100); {
-			case x < 45:
+			case x < 42:
 				h.adminStep(g, wide)
-			case x < 75:
+			case x < 80:
 				h.probeStep(g)
 			default:
 				h.syntheticStep(g)
